@@ -659,6 +659,8 @@ func (e *Eng) lockOp(fr *Frame, op string, recv *Val, st *State, g string, pos t
 		if st.held[key] != "" {
 			e.oblige("relock", key, e.safety(fr), pos, g, "false")
 		}
+		// while we waited for the lock other goroutines may have moved the atomic cells on (within their rely)
+		e.relyStepAll(st)
 		if ls != nil {
 			e.havocProtected(st, ls)
 			e.assumeLockInvs(ls, base, st, g)
@@ -962,4 +964,42 @@ func (e *Eng) siteEnv(fr *Frame) *Env {
 		}
 	}
 	return env
+}
+
+// relyStepAll: every atomic cell with a declared rely condition may have been changed by other goroutines.
+func (e *Eng) relyStepAll(st *State) {
+	for _, k := range sortedKeys(e.spec.Atomics) {
+		as := e.spec.Atomics[k]
+		i := strings.LastIndex(k, ".")
+		if i < 0 {
+			continue
+		}
+		t := e.ld.typeOf(k[:i])
+		if t == nil || structOf(t) == nil {
+			continue
+		}
+		s := structOf(t)
+		for fi := 0; fi < s.NumFields(); fi++ {
+			if s.Field(fi).Name() != k[i+1:] {
+				continue
+			}
+			r, rs := e.fieldRegion(t, fi)
+			before := e.get(st, r, rs)
+			if as.Rely == "stable" {
+				continue
+			}
+			e.havocReg(st, r)
+			now := st.reg[r]
+			var rel string
+			switch as.Rely {
+			case "nondecreasing":
+				rel = fmt.Sprintf("(>= (select %s p) (select %s p))", now, before)
+			case "monotone01":
+				rel = fmt.Sprintf("(and (>= (select %s p) (select %s p)) (=> (and (<= 0 (select %s p)) (<= (select %s p) 1)) (<= (select %s p) 1)))", now, before, before, before, now)
+			default:
+				rel = "true"
+			}
+			e.sc.assume(fmt.Sprintf("(forall ((p Int)) (! %s :pattern ((select %s p))))", rel, now), "rely step for atomic "+k)
+		}
+	}
 }
